@@ -2,7 +2,8 @@
 """Regenerates /verif/MANIFEST.json and targets.mk from tools/registry.py."""
 import json, sys, os, subprocess
 sys.path.insert(0, os.path.dirname(os.path.abspath(__file__)))
-from registry import CHECKS, HOOK_COMMITS, NOT_APPLICABLE
+from registry import CHECKS as ALL_CHECKS, HOOK_COMMITS, NOT_APPLICABLE, ENABLED
+CHECKS = {k: v for k, v in ALL_CHECKS.items() if k in ENABLED}
 props = [json.loads(l)['id'] for l in open('/verif/properties.jsonl')]
 checks = []
 for pid in props:
@@ -37,6 +38,6 @@ m = {
  'notes': 'All checks rebuild asl from /repo working tree via make (dependency tracked). KNOWN_FINDINGS.txt lists known/fixed defects. See DESIGN.md.',
 }
 json.dump(m, open('/verif/MANIFEST.json', 'w'), indent=1)
-bins = sorted({'$(B)/%s/bin/%s' % (p['flavour'], p['bin']) for c in CHECKS.values() for p in c['parts']})
+bins = sorted({'$(B)/%s/bin/%s' % (p['flavour'], p['bin']) for c in ALL_CHECKS.values() for p in c['parts']})
 open('/verif/targets.mk', 'w').write('ALL_BINS := ' + ' '.join(bins) + '\n')
 print('manifest: %d checks, %d not claimed' % (len(checks), len(na)))
